@@ -51,12 +51,8 @@ func siteKeys(sources map[string]string, diags []engine.Diag, maxTag int, prefix
 			}
 		}
 	}()
-	for _, d := range diags {
-		uk := fmt.Sprintf("%s:%d:%d:%s:%s", d.File, d.Line, d.Col, d.Code, d.Message)
-		if seen[uk] {
-			continue
-		}
-		seen[uk] = true
+	_ = seen
+	for _, d := range engine.CollapseVariants(diags) {
 		if len(prefixes) > 0 {
 			ok := false
 			for _, p := range prefixes {
